@@ -12,6 +12,14 @@ META = {
  'assumptions': sum([p.META.get('assumptions', []) for p in _parts], []),
 }
 def queries(tier):
+    from engine import Query
     qs = []
     for p in _parts: qs += p.queries(tier)
+    # the caller's precision reaches every real number of the tree (Digit::realToString replaced by a recorder)
+    b = {'Dispose': 4, 'Copy': 14, 'Hash': 3, 'IsEqual': 4, 'find': 4, 'resize|generateHash|expand': 6, 'vf_mem.*': 160, 'Count': 3, 'SetToZero': 24, 'Write|write': 10,
+         'stringifyObject|stringifyArray|stringifyValue': 4, 'Escape': 3, 'h_precision': 4}
+    for root in (0, 1):
+        qs.append(Query('stringify/precision/root%d' % root, 'C08_precision.cpp', 'h_precision', {'ROOT': root}, bounds=b, default_unwind=4, default_rec=3,
+                        rec_bounds={'~Value|stringify.*': 4}, timeout=600, mem_gb=12,
+                        stubs={'_ZN6Qentem5Digit12realToStringIdNS_12StringStreamIcEEyEEvRT0_T1_NS0_14RealFormatInfoE': 'rec_real'}))
     return qs
